@@ -385,6 +385,13 @@ pub fn adversarial(r: &mut Rng) -> Vec<Vec<OpCode>> {
         v.push(p.clone());
         p[1] = Loop(3, 2); v.push(p);
     }
+    // ... nor by Hash(n) on an operand much longer than n (refused), nor by the length / slice instructions on it
+    {
+        let base = vec![PushB(vec![7u8; 64]), Loop(13, 2), Dup, BAppend];
+        for tail in [vec![Hash(32)], vec![Hash(64)], vec![BLength], vec![PushI(U256::from(8u32)), PushI(U256::from(4u32)), BSlice, Hash(4)]] {
+            let mut p = base.clone(); p.extend(tail); v.push(p);
+        }
+    }
     // a loop header that is the last instruction of the (skipped) body of another header: its own body overruns
     // the enclosing one, and it is reached by a jump, so it runs in full
     for (n, k) in [(300u16, 2u16), (1000, 2), (7, 2)] {
